@@ -3,12 +3,13 @@
 # Runs the checks against a scratch worktree of /repo with the patch applied, from a
 # scratch copy of /verif (so that the shared coq/Gen and build trees are not disturbed).
 # Prints each check's output and exit code; removes both scratch trees afterwards.
+# MUTCHECK_SRC=<dir>: copy the machinery from a snapshot of /verif instead of the live tree.
 patch="$(readlink -f "$1")"; shift
 d=/tmp/mc-$$
 mkdir -p $d
 git -C /repo worktree add -q $d/repo HEAD || exit 2
 if ! git -C $d/repo apply "$patch"; then echo "PATCH DOES NOT APPLY"; git -C /repo worktree remove --force $d/repo; rm -rf $d; exit 2; fi
-rsync -a --exclude _work --exclude .git --exclude replays /verif/ $d/verif/
+rsync -a --exclude _work --exclude .git --exclude replays ${MUTCHECK_SRC:-/verif}/ $d/verif/
 mkdir -p $d/verif/replays
 rc_all=0
 for c in "$@"; do
